@@ -1,5 +1,6 @@
 //! One space definition (alphabet, bound, oracle selection) per property.
 
+use crate::gen;
 use crate::mc::{par_partitions, Local, Report, Tier};
 use crate::oracle::{self, check_decode, Case, Checks, Entry};
 use crate::refcbor::{hex, unhex, Item};
@@ -210,6 +211,41 @@ pub fn wide_maps(ex: &Ex, space: &str, extras: &dyn Fn(usize) -> (Item, Item), t
         }
     }
     ex.rep.merge(l);
+}
+
+/// Every value of the given registries (plus their neighbours and the edges of the private-use
+/// range), as CBOR integers, de-duplicated: the labels at which a decoder might branch.
+pub fn registry_labels(regs: &[crate::refiana::Reg]) -> Vec<Item> {
+    let mut seen = std::collections::BTreeSet::new();
+    for r in regs {
+        for (_, v) in crate::refiana::table(*r) {
+            for d in [-1i64, 0, 1] {
+                seen.insert(v.saturating_add(d) as i128);
+            }
+        }
+    }
+    for v in [-65537i128, -65536, -65535, 65535, 65536, i64::MAX as i128, i64::MIN as i128] {
+        seen.insert(v);
+    }
+    seen.into_iter().map(gen::i).collect()
+}
+
+/// The opaque value palette plus the shapes registry-specific validation would care about (lists
+/// of 0..3 byte strings, nested maps, integers beyond the i64 range).
+pub fn kinds_plus() -> Vec<Item> {
+    let mut k = gen::kinds();
+    k.extend([
+        gen::arr(vec![gen::b(b"c")]),
+        gen::arr(vec![gen::b(b"c"), gen::b(b"d")]),
+        gen::arr(vec![gen::b(b"c"), gen::b(b"d"), gen::b(b"e")]),
+        gen::map(vec![(gen::u(1), gen::map(vec![(gen::u(1), gen::u(2))]))]),
+        gen::u(1 << 63),
+        gen::i(i64::MIN as i128),
+        gen::u(65535),
+        gen::u(65536),
+        gen::t("a/b"),
+    ]);
+    k
 }
 
 /// Every byte string of length <= maxlen through the given entry points (differential against the
